@@ -7,6 +7,7 @@ import (
 // c02Extra: rules added after the fourth independent seeding round.
 func c02Extra(r *core.Run) {
 	p := r.P
+	defer c02R9(r)
 	r.Check("D3/K2/first-status-wins", "the buffered status of the timeout writer is committed once: a store of a caller-supplied code into timeoutWriter.code happens only while wroteHeader is still false (and the response has not timed out), so a later WriteHeader cannot overwrite the status the handler already committed", func(o *core.O) {
 		n := 0
 		for _, f := range p.PkgFuncs(c02Hdl) {
